@@ -62,8 +62,23 @@ class _Rec:
     def compute_secret(self, peer_public_key):
         self.peer = bytes(peer_public_key)
         r = self._r.compute_secret(peer_public_key)
-        self.secrets[self.peer] = bytes(self._r.shared_secret)      # every combination this key pair was ever used in (an object may be reused)
+        # every combination this key pair was ever used in (an object may be reused).  The reference value g^ir is computed HERE from the private key
+        # with the library, not read back from the object under test: an object that keeps an earlier secret must not feed the oracle
+        self.secrets[self.peer] = self._independent(self.peer)
         return r
+
+    def _independent(self, peer):
+        try:
+            from cryptography.hazmat.primitives.asymmetric import ec, dh
+            pk = self._r._private_key
+            if isinstance(pk, ec.EllipticCurvePrivateKey):
+                n = (pk.key_size + 7) // 8
+                pub = ec.EllipticCurvePublicNumbers(int.from_bytes(peer[:n], 'big'), int.from_bytes(peer[n:], 'big'), pk.curve).public_key()
+                return bytes(pk.exchange(ec.ECDH(), pub))
+            pub = dh.DHPublicNumbers(int.from_bytes(peer, 'big'), pk.parameters().parameter_numbers()).public_key()
+            return bytes(pk.exchange(pub))
+        except Exception:      # noqa - an invalid public value: whatever the object under test made of it
+            return bytes(self._r.shared_secret)
 
 
 def shared_from_wire(ke_a, ke_b):
